@@ -60,24 +60,62 @@ def fstring_dfa(node, digits=r"[0-9]+", fn=None):
                                                                                 for e in t.elts) for t in n.targets):
                 return None
         return vals or None
+    def name_exprs(name):
+        """string-building expressions a name is assigned (all of its plain assignments), else None"""
+        if fn is None or _depth[0] > 4:
+            return None
+        out = []
+        for n in ast.walk(fn):
+            if isinstance(n, ast.Assign) and any(isinstance(t, ast.Name) and t.id == name for t in n.targets):
+                if isinstance(n.value, (ast.JoinedStr, ast.BinOp, ast.IfExp)):
+                    out.append(n.value)
+                else:
+                    return None
+        return out or None
     if isinstance(node, ast.Constant) and isinstance(node.value, str):
         return SL.lit(node.value)
+    if isinstance(node, ast.IfExp):
+        a, b = fstring_dfa(node.body, digits, fn), fstring_dfa(node.orelse, digits, fn)
+        return None if a is None or b is None else (a | b)
     if isinstance(node, ast.JoinedStr):
         d = SL.EPSILON
         for v in node.values:
             if isinstance(v, ast.Constant):
                 d = SL.concat(d, SL.lit(str(v.value)))
             else:
-                vals = name_values(v.value.id) if isinstance(v.value, ast.Name) else None
-                d = SL.concat(d, SL.anyof(vals) if vals else SL.rx(digits))
+                sub = None
+                if isinstance(v.value, ast.JoinedStr):
+                    sub = fstring_dfa(v.value, digits, fn)
+                elif isinstance(v.value, ast.Name) and not v.format_spec:
+                    ex = name_exprs(v.value.id)
+                    if ex:
+                        _depth[0] += 1
+                        parts = [fstring_dfa(x, digits, fn) for x in ex]
+                        _depth[0] -= 1
+                        sub = None if any(p_ is None for p_ in parts) else SL.union(parts)
+                if sub is None:
+                    vals = name_values(v.value.id) if isinstance(v.value, ast.Name) else None
+                    sub = SL.anyof(vals) if vals else SL.rx(digits)
+                d = SL.concat(d, sub)
         return d
     if isinstance(node, ast.BinOp) and isinstance(node.op, ast.Add):
         a, b = fstring_dfa(node.left, digits, fn), fstring_dfa(node.right, digits, fn)
         return None if a is None or b is None else SL.concat(a, b)
     if isinstance(node, ast.Name):
         vals = name_values(node.id)
-        return SL.anyof(vals) if vals else None
+        if vals:
+            return SL.anyof(vals)
+        ex = name_exprs(node.id)
+        if ex:
+            _depth[0] += 1
+            parts = [fstring_dfa(x, digits, fn) for x in ex]
+            _depth[0] -= 1
+            return None if any(p_ is None for p_ in parts) else SL.union(parts)
+        return None
     return None
+
+
+_depth = [0]
 
 
 def rule_r(repo, res):
@@ -181,18 +219,33 @@ def rule_r(repo, res):
         accepted = PE.accepts(rd.method("decode_datetime"))
         g = rd.grammar
         l_time = SL.union([SL.strptime_dfa(f) for f in g._t_formats])
+        classes = (("+hh (hours only)", SL.rx(r"[+-][0-9]{1,2}")), ("+hh:mm (colon before the minutes)", SL.rx(r"[+-][0-9]{1,2}:[0-9]{2}")),
+                   ("+hhmm", SL.rx(r"[+-][0-9]{3,4}")))
+        written = SL.EMPTY
+        unread = 0
         for (r, sfx) in suffixes:
             d = fstring_dfa(sfx, digits=r"[0-9]{2}", fn=fn)
             if d is None:
                 res.notes.append(f"R4: suffix `{norm(sfx)}` is not a literal template; not checked")
+                unread += 1
                 continue
-            bad = (SL.concat(l_time, d) - accepted).witnesses(2)
-            res.oblige("R4", f"{c}.encode_time `{norm(r, 50)}`: every <time><zone suffix> it writes is accepted by ODLDecoder.decode_datetime", ok=not bad)
+            written = written | d
+        rest = written
+        for cname_, cl in classes + (("another form", None),):
+            part = (written & cl) if cl is not None else rest
+            if cl is not None:
+                rest = rest - cl
+            if part.empty():
+                continue
+            bad = (SL.concat(l_time, part) - accepted).witnesses(2)
+            res.oblige("R4", f"{c}.encode_time: every <time><zone suffix of the form {cname_}> it writes is accepted by ODLDecoder.decode_datetime", ok=not bad)
             if bad:
-                res.add(Finding("R4", f"{c}.encode_time", norm(sfx, 60),
-                                f"{c}.encode_time writes zone suffixes of the form `{norm(sfx, 60)}`; times such as {bad} "
+                res.add(Finding("R4", f"{c}.encode_time", f"zone suffix {cname_}",
+                                f"{c}.encode_time writes zone suffixes of the form {cname_}; times such as {bad} "
                                 f"are not accepted by ODLDecoder.decode_datetime (offset pattern {pat!r}): the value is "
-                                "not read back as a time with that offset", witness=bad[0], where=f"pvl/encoder.py:{r.lineno}"))
+                                "not read back as a time with that offset", witness=bad[0], where=f"pvl/encoder.py:{fn.lineno}"))
+        if unread and written.empty():
+            raise AnalysisError(f"R4: none of the zone-suffix returns of {c}.encode_time is a readable template")
         # R2: both signs the reader accepts can be written (or the writer refuses negative offsets)
         from . import canon
         cfn = canon.canon(repo, c, fn, module="encoder")
